@@ -458,18 +458,18 @@ fn eval_compile(env: &Env, _op: &str, f: &[&str]) -> CaseRec {
         }
         want.push_str(e);
         // the exit code is taken by a command of its own; the dividers expand the variable, not `$?`
-        want.push_str(&format!("\n\n__SCRUT_EXIT_CODE=$?\necho \"~~~~~~~~EXECDIVIDER::{salt}::{i}::$__SCRUT_EXIT_CODE\""));
+        want.push_str(&format!("\n\n__SCRUT_EXIT_CODE=$?\n\\builtin echo \"~~~~~~~~EXECDIVIDER::{salt}::{i}::$__SCRUT_EXIT_CODE\""));
         if !combined {
-            want.push_str(&format!("\n1>&2 echo \"~~~~~~~~EXECDIVIDER::{salt}::{i}::$__SCRUT_EXIT_CODE\""));
+            want.push_str(&format!("\n1>&2 \\builtin echo \"~~~~~~~~EXECDIVIDER::{salt}::{i}::$__SCRUT_EXIT_CODE\""));
         }
-        want.push_str("\nunset __SCRUT_EXIT_CODE");
+        want.push_str("\n\\builtin unset __SCRUT_EXIT_CODE");
     }
     if script != want {
-        fails.push(("C13:script-verbatim".to_string(), "the compiled script is not the expressions verbatim, each followed by an empty line, `__SCRUT_EXIT_CODE=$?`, its divider echo(s) and `unset __SCRUT_EXIT_CODE`".to_string()));
+        fails.push(("C13:script-verbatim".to_string(), "the compiled script is not the expressions verbatim, each followed by an empty line, `__SCRUT_EXIT_CODE=$?`, its divider echo(s) and `unset __SCRUT_EXIT_CODE` (by the builtins)".to_string()));
     }
     // the property behind the layout, checked on the text alone: a divider echo that expands `$?` reads the status of
     // whatever stands in front of it -- its own `echo` when an expression ends in `|`
-    if script.lines().any(|l| l.contains("EXECDIVIDER::") && (l.starts_with("echo \"") || l.starts_with("1>&2 echo \"")) && l.ends_with("$?\"") && l.contains(&format!("::{salt}::"))) {
+    if script.lines().any(|l| l.contains("EXECDIVIDER::") && (l.contains("echo \"~~~~~~~~EXECDIVIDER::")) && l.ends_with("$?\"") && l.contains(&format!("::{salt}::"))) {
         fails.push(("C13:divider-reads-status-itself".to_string(), "a divider echo line of the compiled script expands `$?` itself: an expression that ends in `|` makes it part of the user's pipeline and it reports 0".to_string()));
     }
     let op = format!("compile {} {} {} {}", f[1], thex(&salt), f[3], f[4]);
